@@ -38,6 +38,18 @@ T = {
                 technique="runtime oracle: quadrature weights and stored basis integrals of the real classes compared with exact Gauss-Legendre integration of the interpolant / basis functions over generated spaces",
                 text="q.u vs exact integral of the interpolant, weight sum, equal weights, stored integrals vs exact, for generated spaces incl. non-uniform periodic and tiny uniform-cubic spaces.",
                 note=REF + "; for periodic spaces only the folded (periodic) basis integrals are demanded"),
+    "C10": dict(level="exploration", engine="refmath+simmpi", design="3/C10",
+                technique="runtime differential oracle: real FluxSurfaceAdvection.step/gridStep vs an independent implementation of the stated field-aligned Lagrange formula, plus metamorphic identities on the real code; grid level on simulated ranks",
+                text="Generated set-ups (sizes, degrees, twist, displacement classes incl. beyond one period and on-node feet); every node compared; identities; gridStep on several process grids against the formula with global radius/velocity.",
+                note=REF + "; " + SIM),
+    "C11": dict(level="exploration", engine="refmath+simmpi", design="3/C11",
+                technique="runtime differential oracle: real VParallelAdvection.step vs independent interpolate-and-shift with the three boundary rules; gridStep/gridStepKeepGradient on simulated ranks vs reference from global coordinates",
+                text="Generated v-spaces, boundary modes and shifts (0 ... 3 domains); grid-level wiring on process grids splitting r, z, both, neither, with random global fields.",
+                note=REF + "; " + SIM),
+    "C13": dict(level="exploration", engine="refmath", design="3/C13",
+                technique="runtime differential oracle: real ParallelGradient.parallel_gradient vs independent field-aligned finite-difference formula (exact-rational weights), identities and observed convergence order; per-rank Layout objects for the local-index mapping",
+                text="Orders 2-6, generated sizes/degrees/twist incl. caller-supplied r-dependent transform, r split over 1-4 ranks, every local radial index and every node incl. seam rows; identities; convergence order.",
+                note=REF),
     "C20": dict(level="exploration", engine="direct+simmpi", design="3/C20",
                 technique="runtime oracle: brute-force divisor enumeration (exhaustive box + random), sys.monitoring line budget for termination, layouts built and transposed on the chosen grid under simulated MPI",
                 text="Exhaustive comparison with brute force inside a bounded box, random sampling far beyond, termination judged in executed lines; the chosen grid is used to build and exercise the standard layouts.",
